@@ -865,6 +865,42 @@ impl Alphabet {
 				body_len: vec![l; VERSIONS.len()],
 			});
 		}
+		// known types whose frame announces more bytes than the type's decoder reads (still within the limit enforced for
+		// the type): whatever the decoder makes of them, the announced length is what separates this frame from the next
+		for name in ["Ping", "Pong", "GetTransaction", "BanReason", "TxHashSetRequest"] {
+			let (src_wire, src_exp, src_body_len) = {
+				let i = a.items.iter().find(|i| i.name == name).expect("padded: source item");
+				(i.wire.clone(), i.exp.clone(), i.body_len.clone())
+			};
+			struct Src {
+				wire: Vec<Vec<u8>>,
+				exp: Vec<Vec<Exp>>,
+				body_len: Vec<usize>,
+			}
+			let src = Src { wire: src_wire, exp: src_exp, body_len: src_body_len };
+			let ty = src.wire[0][2];
+			let top = enforced_limit(ty) as usize;
+			let base = src.body_len[0];
+			let mut pads = vec![1usize, 8];
+			if top > base + 8 {
+				pads.push(top - base);
+			}
+			for pad in pads {
+				let mut it = Item { name: format!("Padded:{}:+{}", name, pad), wire: vec![], exp: src.exp.clone(), body_len: vec![] };
+				for (vi, _) in VERSIONS.iter().enumerate() {
+					let body = &src.wire[vi][11..];
+					let mut w = raw_header(m, ty, (body.len() + pad) as u64);
+					w.extend_from_slice(body);
+					// filler that would parse as frames if the reader resumed inside it: repeated Ping frames
+					let mut fill = raw_header(m, Type::Ping as u8, 16);
+					fill.extend(vec![0u8; 16]);
+					w.extend((0..pad).map(|i| fill[i % fill.len()]));
+					it.body_len.push(body.len() + pad);
+					it.wire.push(w);
+				}
+				a.items.push(it);
+			}
+		}
 		a
 	}
 }
@@ -971,7 +1007,7 @@ fn product(sets: &[&[usize]]) -> Vec<Vec<usize>> {
 	out
 }
 
-const SETS_DOC: &str = "item sets: ALL = the whole alphabet (26 known types, with header lists of 0/1/31/32/33/64/65 headers and archive attachments of 0/1/47999/48000/48001/100000 bytes, and every unknown type byte 29..255 with bodies of 0/1/100 bytes: 718 items); CORE = one item per known type (Headers:1, TxHashSetArchive+1) and Unknown:255:1 (27 items); LIGHT = CORE items of at most 400 wire bytes, HEAVY = the rest of CORE; BIG = Headers:0, Headers:32, Headers:33, Headers:65, TxHashSetArchive+0, TxHashSetArchive+48000, TxHashSetArchive+48001; UNK1 = the 227 unknown type bytes with a 1-byte body; SMALL = CORE items of at most 120 wire bytes, Headers:0, Unknown:29:0, Unknown:29:1, Unknown:255:0; TINY = SMALL items of at most 32 wire bytes; ULONG = unknown type 200 with bodies of 8191 / 8192 / 8193 bytes and of exactly the enforced limit, filled with well-formed Ping frames (in pairs with Ping / the LIGHT items, every split point)";
+const SETS_DOC: &str = "item sets: ALL = the whole alphabet (26 known types, with header lists of 0/1/31/32/33/64/65 headers and archive attachments of 0/1/47999/48000/48001/100000 bytes, and every unknown type byte 29..255 with bodies of 0/1/100 bytes: 718 items); CORE = one item per known type (Headers:1, TxHashSetArchive+1) and Unknown:255:1 (27 items); LIGHT = CORE items of at most 400 wire bytes, HEAVY = the rest of CORE; BIG = Headers:0, Headers:32, Headers:33, Headers:65, TxHashSetArchive+0, TxHashSetArchive+48000, TxHashSetArchive+48001; UNK1 = the 227 unknown type bytes with a 1-byte body; SMALL = CORE items of at most 120 wire bytes, Headers:0, Unknown:29:0, Unknown:29:1, Unknown:255:0; TINY = SMALL items of at most 32 wire bytes; ULONG = unknown type 200 with bodies of 8191 / 8192 / 8193 bytes and of exactly the enforced limit, filled with well-formed Ping frames (in pairs with Ping / the LIGHT items, every split point); PADDED = Ping, Pong, GetTransaction, BanReason, TxHashSetRequest frames announcing 1 / 8 / up-to-the-enforced-limit more bytes than the type's decoder reads (filler: Ping frames), alone and in pairs with the LIGHT items";
 
 /// The stated finite space, as a list of groups (see SETS_DOC for the item sets).
 fn groups(a: &Alphabet, tier: Tier) -> Vec<Group> {
@@ -995,6 +1031,7 @@ fn groups(a: &Alphabet, tier: Tier) -> Vec<Group> {
 	}
 	let tiny: Vec<usize> = small.iter().cloned().filter(|&i| wl(i) <= 32).collect();
 	let ulong: Vec<usize> = (0..n).filter(|&i| a.items[i].name.starts_with("UnknownLong:")).collect();
+	let padded: Vec<usize> = (0..n).filter(|&i| a.items[i].name.starts_with("Padded:")).collect();
 	let all: Vec<usize> = all.into_iter().filter(|i| !ulong.contains(i)).collect();
 	let ping: Vec<usize> = vec![a.idx("Ping")];
 	let one = |s: &[usize]| -> Vec<Vec<usize>> { s.iter().map(|&i| vec![i]).collect() };
@@ -1018,8 +1055,16 @@ fn groups(a: &Alphabet, tier: Tier) -> Vec<Group> {
 			let mut s = product(&[&ulong, &ping]);
 			s.extend(product(&[&ping, &ulong]));
 			g.push(Group { name: "pair-unknown-long", seqs: s, versions: v_last.clone(), cuts: Cuts::Single });
+			// a frame longer than its decoder reads: the next message starts after the announced length
+			let mut s = product(&[&padded, &light]);
+			s.extend(product(&[&ping, &padded]));
+			g.push(Group { name: "pair-padded", seqs: s, versions: v_ends.clone(), cuts: Cuts::Single });
 		}
 		Tier::Thorough => {
+			let mut s = product(&[&padded, &light]);
+			s.extend(product(&[&light, &padded]));
+			s.extend(product(&[&padded, &padded]));
+			g.push(Group { name: "pair-padded", seqs: s, versions: v_all.clone(), cuts: Cuts::Single });
 			g.push(Group { name: "single", seqs: one(&all), versions: v_all.clone(), cuts: Cuts::Single });
 			g.push(Group { name: "pair-core", seqs: product(&[&core, &core]), versions: v_all.clone(), cuts: Cuts::Single });
 			let mut s = product(&[&big, &core]);
